@@ -45,6 +45,7 @@ func interleaveBody(r *explore.Run, rep *report.R, sc string, form, u2form usage
 	s.Admit = append(s.Admit, w.admit)
 	used := res(usedGK, "v1", "r")
 	used.SetLabels(map[string]string{"role": "db"})
+	seedOwners(s, used, usageForm{matchCtrl: form.matchCtrl || u2form.matchCtrl})
 	s.Seed(used)
 	app := res(usingGK, "v1", "app")
 	app.SetLabels(map[string]string{"role": "app"})
